@@ -5,6 +5,7 @@ import ClusterVerif.Gen.C04
 import ClusterVerif.Lemmas.C04Rpc
 import ClusterVerif.Lemmas.C04Sem
 import ClusterVerif.Gen.C04Sem
+import ClusterVerif.Lemmas.C04Typed
 
 /-!
 # C04 — pin, unpin and update change the pinset exactly as requested, or not at all
@@ -160,8 +161,8 @@ theorem step_holds (cfg : Cfg) (pre : PinMap) (op : Op) (chosen : List Nat)
         rw [hstep, hl] at hne ⊢
         exact unpin_hold cfg pre c hne
     | rpcPin p =>
-      simp only [List.all_cons, List.all_nil, Bool.and_true]
-      exact rpcPin_effect cfg pre p chosen hwf hne
+      simp only [List.all_cons, List.all_nil, Bool.and_true, Bool.and_eq_true]
+      exact ⟨rpcPin_effect cfg pre p chosen hwf hne, rpcPin_sent_effect cfg pre p chosen hwf hfol hne⟩
 
 /-- requests (incl. the rpc pin entry) carry metadata as a map -/
 def wfOpFull : Op → Bool
@@ -663,16 +664,13 @@ example :
         (fun out => holds rpcExCfg [] (.pinPath 0 rpcExOpts) out.res out.post)) = some true ∧
     rpcOp Gen.rpcTable (.unpin (pinWithOpts 3 rpcExOpts)) = some (.unpin 3) := by decide
 
-theorem gen_source_pinPublic : Gen.pinPublic = Expected.pinPublic := rfl
+/-! Source-text snapshots (`rfl` on normalised source lines) are kept ONLY for the functions that have no semantic tie.
+    Round 8c removed the seven of `Cluster.Pin`, `PinPath`, `UnpinPath`, `pin`, `setupPin`, `Unpin`, `PinUpdate`: their
+    statement sequences are regenerated and RUN by the model (`gen_sem_programs`, `sem_is_model` below), so a text
+    snapshot of them only raised alarms on harmless rewrites (renamed locals, reworded log lines). -/
 theorem gen_source_setupReplicationFactor : Gen.setupReplicationFactor = Expected.setupReplicationFactor := rfl
-theorem gen_source_setupPin : Gen.setupPin = Expected.setupPin := rfl
-theorem gen_source_pinInternal : Gen.pinInternal = Expected.pinInternal := rfl
-theorem gen_source_unpin : Gen.unpin = Expected.unpin := rfl
 theorem gen_source_unpinClusterDag : Gen.unpinClusterDag = Expected.unpinClusterDag := rfl
 theorem gen_source_cidsFromMetaPin : Gen.cidsFromMetaPin = Expected.cidsFromMetaPin := rfl
-theorem gen_source_pinUpdate : Gen.pinUpdate = Expected.pinUpdate := rfl
-theorem gen_source_pinPath : Gen.pinPath = Expected.pinPath := rfl
-theorem gen_source_unpinPath : Gen.unpinPath = Expected.unpinPath := rfl
 theorem gen_source_checkPinType : Gen.checkPinType = Expected.checkPinType := rfl
 theorem gen_source_optsEquals : Gen.optsEquals = Expected.optsEquals := rfl
 theorem gen_source_pinEquals : Gen.pinEquals = Expected.pinEquals := rfl
@@ -756,5 +754,126 @@ theorem sem_unpin_no_follower_guard_fails :
 example : (semPre.wfState && wfCfg semCfg && wfOp (.pinPath 0 semDirect) && Sem.opDefined semCfg (.pinPath 0 semDirect)) = true ∧
     ((Sem.stepSem Sem.expected semCfg [] (.pinPath 0 semDirect) []).bind (fun o => o.post.get 3)).map (·.opts.mode) = some .direct := by
   decide
+
+
+/-! ## Round 8c — the adders' typed pins, the pin without a cid, retries, factor defaults -/
+
+/-- Prop-level reading of the clause `rpc_pin_stored_as_sent`, for ALL inputs: a pin object sent to the RPC `Pin` that is
+    new at its cid (no entry, no update source) and accepted is stored with the type, reference and depth it was sent
+    with, and with its preset allocations unless it carried none or asks to be pinned everywhere. -/
+theorem rpc_pin_stored_as_sent (cfg : Cfg) (pre : PinMap) (p : Pin) (chosen : List Nat) (hw : pre.wf = true)
+    (hr : (step cfg pre (.rpcPin p) chosen).res ≠ none) (hnew : pre.get p.cid = none)
+    (hu : viaUpdate p.cid p.opts = none) :
+    ∃ st, (step cfg pre (.rpcPin p) chosen).post.get p.cid = some st ∧ st.type = p.type ∧ st.ref = p.ref ∧
+      st.depth = p.depth ∧
+      (p.allocs ≠ [] → ¬ (effMin cfg p.opts = -1 ∧ effMax cfg p.opts = -1) → st.allocs = p.allocs) := by
+  have hfol : cfg.follower = false := by
+    cases hf : cfg.follower with
+    | false => rfl
+    | true => exact absurd (step_follower cfg pre (.rpcPin p) chosen hf) hr
+  have h := rpcPin_sent_effect cfg pre p chosen hw hfol hr
+  have hs := rpcPin_effect cfg pre p chosen hw hr
+  show ∃ st, (pinOp cfg pre p [] chosen).post.get p.cid = some st ∧ _
+  unfold sentAsIs at h
+  rw [hnew, hu] at h
+  cases hg : (pinOp cfg pre p [] chosen).post.get p.cid with
+  | none => rw [hg] at hs; cases hs
+  | some st =>
+    rw [hg] at h
+    simp only [Bool.and_eq_true, Bool.or_eq_true, beq_iff_eq, List.isEmpty_iff] at h
+    obtain ⟨⟨⟨h1, h2⟩, h3⟩, h4⟩ := h
+    refine ⟨st, rfl, h1, h2, h3, ?_⟩
+    intro hne hev
+    rcases h4 with (h4 | h4) | h4
+    · exact absurd h4 hne
+    · exact absurd h4 hev
+    · exact h4
+
+private def shardPin : Pin :=
+  { cid := 10, type := .shardT, opts := { noOpts with rmin := 1, rmax := 1 }, depth := 1, allocs := [1], ref := none }
+private def twoPeers : Cfg :=
+  { follower := false, defMin := 1, defMax := 1, desc := false, peers := [(0, .valid 1), (1, .valid 2)], paths := [], blocks := [] }
+
+/-- non-vacuity: the adders' shard pin with a preset allocation meets the hypotheses and is stored as sent -/
+example : PinMap.wf [] = true ∧ (step twoPeers [] (.rpcPin shardPin) [0]).res ≠ none ∧
+    PinMap.get [] shardPin.cid = none ∧ viaUpdate shardPin.cid shardPin.opts = none ∧
+    ((step twoPeers [] (.rpcPin shardPin) [0]).post.get 10).map (fun st => (st.type, st.depth, st.allocs)) =
+      some (.shardT, 1, [1]) := by decide
+
+/-- REFUTED (first pass M2): an RPC `Pin` routed through the public `Cluster.Pin(in.Cid, in.PinOptions)` — judged by the
+    Spec for the request as meant, the outcome for the adders' shard pin now FAILS (`rpc_pin_stored_as_sent`). -/
+theorem rpc_pin_via_public_pin_fails :
+    ¬ (∀ cfg pre call op ch out, call.intended = some op → pre.wfState = true → wfCfg cfg = true →
+        rpcStep tblPinViaPublicPin cfg pre call ch = some out → holds cfg pre op out.res out.post = true) := by
+  intro h
+  have := h twoPeers [] (.pin shardPin) (.rpcPin shardPin) [0] _ rfl rfl rfl rfl
+  revert this; decide
+
+/-- REFUTED (first pass M3): an RPC `Pin` that clears the preset allocations before `pin()` — the outcome of pinning
+    the cleared object, judged for the object that was SENT, fails the clause. -/
+theorem rpc_pin_clearing_allocations_fails :
+    ¬ (∀ cfg pre (p : Pin) ch, pre.wfState = true → wfCfg cfg = true →
+        holds cfg pre (.rpcPin p) (step cfg pre (.rpcPin { p with allocs := [] }) ch).res
+          (step cfg pre (.rpcPin { p with allocs := [] }) ch).post = true) := by
+  intro h
+  have := h twoPeers [] shardPin [0] rfl rfl
+  revert this; decide
+
+/-- "refused, nothing changed" is an outcome every clause accepts (used for the request without a cid). -/
+theorem refused_outcome_holds (cfg : Cfg) (pre : PinMap) (op : Op) (hw : pre.wf = true) :
+    holds cfg pre op none pre = true := holds_refused cfg pre op hw
+
+/-- ALL inputs, no "cids defined" hypothesis: what the interpreted code computes satisfies every clause AND the clause
+    `pin_without_cid_refused` (a request that names no cid is refused and changes nothing). -/
+theorem sem_step_holds_all (cfg : Cfg) (pre : PinMap) (op : Op) (chosen : List Nat)
+    (hpre : pre.wfState = true) (hcfg : wfCfg cfg = true) (hop : wfOp op = true)
+    (halloc : ∀ ai, (step cfg pre op chosen).alloc = some ai → C03.allowed ai (.ok chosen) = true) :
+    ∃ out, Sem.stepSem Gen.semProgs cfg pre op chosen = some out ∧ holds cfg pre op out.res out.post = true ∧
+      (undefClauses cfg pre op out.res out.post).all (·.2) = true := by
+  have hwf : pre.wf = true := by
+    unfold PinMap.wfState at hpre; simp only [Bool.and_eq_true] at hpre; exact hpre.1
+  cases hd : Sem.opDefined cfg op with
+  | true =>
+    obtain ⟨out, h1, h2⟩ := sem_step_holds cfg pre op chosen hpre hcfg hop hd halloc
+    refine ⟨out, h1, h2, ?_⟩
+    have : opUndef cfg op = false := by
+      cases op <;> simp_all [Sem.opDefined, opUndef, resolve, noCid, Sem.undefCid]
+    simp [undefClauses, this]
+  | false =>
+    refine ⟨err pre, ?_, holds_refused cfg pre op hwf, ?_⟩
+    · rw [sem_is_model]
+      cases op <;> simp_all [Sem.opDefined, Sem.stepU]
+    · simp [undefClauses, err, sameMap_self]
+
+/-- non-vacuity: a pin object without a cid is an input of `sem_step_holds_all` that takes the second branch -/
+example : Sem.opDefined twoPeers (.rpcPin { shardPin with cid := noCid }) = false ∧
+    opUndef twoPeers (.rpcPin { shardPin with cid := noCid }) = true := by decide
+
+/-- Direction (4), retries: an Unpin that succeeded is DONE — running it again is refused and changes nothing
+    (with `unpin_retry_heals`: retrying after a fault converges to the same final pinset, and once there, stays). -/
+theorem unpin_done_retry_is_noop (cfg : Cfg) (pre : PinMap) (c : Nat) (hne : (unpinOp cfg pre c).res ≠ none) :
+    unpinOp cfg (unpinOp cfg pre c).post c = err (unpinOp cfg pre c).post := by
+  have hg := unpin_effect cfg pre c hne c (List.mem_cons_self ..)
+  generalize (unpinOp cfg pre c).post = m at hg ⊢
+  unfold unpinOp
+  split_ifs
+  · rfl
+  · rw [hg]
+
+/-- Direction (2), unusual-but-valid configuration: default "pin everywhere" (max −1) and a request that sets only the
+    minimum (> 0, max left 0 = "use default") gives the mixed pair (min > 0, −1): refused, pinset unchanged. -/
+theorem mixed_factor_with_everywhere_default_refused (cfg : Cfg) (pre : PinMap) (c : Nat) (o : Opts) (ch : List Nat)
+    (hw : pre.wf = true) (hd : cfg.defMax = -1) (h0 : o.rmax = 0) (hm : o.rmin > 0) (hu : viaUpdate c o = none) :
+    (step cfg pre (.pin c o) ch).res = none ∧ (step cfg pre (.pin c o) ch).post = pre := by
+  have hmr : mustRefuse cfg pre (.pin c o) = true := by
+    have hne0 : (o.rmin == 0) = false := by simp; omega
+    have hne1 : (o.rmin == -1) = false := by simp; omega
+    simp [mustRefuse, pinRequest, hu, effMin, effMax, h0, hd, hne0, C03.factorsValid, hne1]
+    exact Or.inr (Or.inl (Or.inl (Or.inl (Or.inl (by omega)))))
+  have hres := mustRefuse_refused cfg pre (.pin c o) ch hmr
+  exact ⟨hres, shape_refused (shape_step cfg pre (.pin c o) ch) hres⟩
+
+example : viaUpdate 3 { noOpts with rmin := 2 } = none ∧
+    (step { twoPeers with defMin := -1, defMax := -1 } [] (.pin 3 { noOpts with rmin := 2 }) [0]).res = none := by decide
 
 end CV.C04
